@@ -92,6 +92,29 @@ def run(repo='/repo', tier='quick'):
         res.check(bool(hs) and all(hb in dom[b] for hb in hs), 'C05.a', 'htp_tx_finalize:destroy-after-hook', 'auto-destroy happens after TRANSACTION_COMPLETE',
                   'the transaction is destroyed on a path that did not run TRANSACTION_COMPLETE first', c['loc'])
 
+    # ---------------- C05.e COMPLETE is not observable without its callback
+    res.rule('C05.e', 'between the assignment progress = COMPLETE and the run of the matching completion hook there is no exit: a side is never marked complete without its completion callback having been attempted')
+    for hook, prog, const in (('hook_request_complete', 'request_progress', 'HTP_REQUEST_COMPLETE'), ('hook_response_complete', 'response_progress', 'HTP_RESPONSE_COMPLETE')):
+        for fn in db.fn.values():
+            if not any(h == hook for b, i, st in fn.stmts() for h, c in P.hook_runs(st)):
+                continue
+            for b, i, x in P.field_writes(fn, prog):
+                if not (x['k'] == 'assign' and lit_name(x['r']) == const):
+                    continue
+                leaked = []
+
+                def visit(bb, ii, st, hook=hook):
+                    if any(h == hook for h, c in P.hook_runs(st)):
+                        return True
+                    if st.get('k') == 'return':
+                        leaked.append(st)
+                        return True
+                    return False
+                ends, ex = C.forward(fn, (b, i), visit)
+                res.check(not leaked, 'C05.e', '%s:%s=COMPLETE-then-hook' % (fn.name, prog), 'every path from the assignment reaches the %s run' % hook,
+                          '%s can return after %s = %s without running %s: the side counts as complete (TRANSACTION_COMPLETE can fire) although its completion callback never ran' % (fn.name, prog, const, hook),
+                          leaked[0]['loc'] if leaked else x['loc'])
+
     # ---------------- C05.b
     for fname, prog, const, detach in (
             ('htp_tx_state_request_complete', 'request_progress', 'HTP_REQUEST_COMPLETE', [('in_tx', '0')]),
